@@ -191,15 +191,60 @@ __CPROVER_ensures(HOK(self) && HOK(other) && WF(self) && RAW(self) == g_osize0 &
 __CPROVER_assigns(self->size_, self->heap_ptr, self->heap_capacity, other->size_, g_T_constructed, g_T_destroyed, TABLES)
 #include "SV_move_ctor.body.inc"
 
+BlkH g_oldheap;
+/* copy construction / copy assignment: as many elements as other holds are copy-constructed (net of any relocation), other is not
+ * modified; assignment first destroys what this vector held and releases its heap block */
+size_t g_olive0;
+void SV_copy_ctor(SV* self, const SV* other)
+__CPROVER_requires(self != other && WF(other) && g_osize0 == RAW(other) && g_olive0 == g_live[DATA(other)] && g_c0 == g_T_constructed && g_d0 == g_T_destroyed)
+__CPROVER_requires(HOK(self) && self->inl != other->inl && g_cap[self->inl] == KN && g_align[self->inl] >= ALIGNOF_T && !g_freed[self->inl] && g_live[self->inl] == 0 && g_osize0 + 1 < CAP_MAX / 2)
+__CPROVER_ensures(HOK(self) && HOK(other) && WF(self) && WF(other) && RAW(self) == g_osize0 && RAW(other) == g_osize0 && g_live[DATA(other)] == g_olive0)
+__CPROVER_ensures((g_T_constructed - g_c0) - (g_T_destroyed - g_d0) == g_osize0)
+__CPROVER_assigns(self->size_, self->heap_ptr, self->heap_capacity, g_T_constructed, g_T_destroyed, g_frees, g_allocs, TABLES)
+#include "SV_copy_ctor.body.inc"
+
+void SV_copy_assign(SV* self, const SV* other)
+__CPROVER_requires(self != other && WF(self) && WF(other) && self->inl != other->inl && (ISINL(self) || ISINL(other) || self->heap_ptr != other->heap_ptr))
+__CPROVER_requires(g_osize0 == RAW(other) && g_olive0 == g_live[DATA(other)] && g_size0 == RAW(self) && g_inl0 == ISINL(self) && g_oldheap == self->heap_ptr && g_c0 == g_T_constructed && g_d0 == g_T_destroyed && g_osize0 + 1 < CAP_MAX / 2)
+__CPROVER_ensures(HOK(self) && HOK(other) && WF(self) && WF(other) && RAW(self) == g_osize0 && RAW(other) == g_osize0 && g_live[DATA(other)] == g_olive0)
+__CPROVER_ensures((g_T_constructed - g_c0) + g_size0 == (g_T_destroyed - g_d0) + g_osize0 && (!g_inl0 ==> g_freed[g_oldheap]))
+__CPROVER_assigns(self->size_, self->heap_ptr, self->heap_capacity, g_T_constructed, g_T_destroyed, g_frees, g_allocs, TABLES)
+#include "SV_copy_assign.body.inc"
+
+/* operator=(SmallVector&& other): the elements this vector held are destroyed and its heap block released; other's elements are taken over
+ * (inline: moved one by one and destroyed in other; heap: the block changes hands); other is left empty and inline */
+void SV_move_assign(SV* self, SV* other)
+__CPROVER_requires(self != other && WF(self) && WF(other) && self->inl != other->inl && (ISINL(self) || ISINL(other) || self->heap_ptr != other->heap_ptr))
+__CPROVER_requires(g_osize0 == RAW(other) && g_size0 == RAW(self) && g_inl0 == ISINL(self) && g_oldheap == self->heap_ptr && g_c0 == g_T_constructed && g_d0 == g_T_destroyed)
+__CPROVER_ensures(HOK(self) && HOK(other) && WF(self) && RAW(self) == g_osize0 && RAW(other) == 0 && ISINL(other) && g_live[other->inl] == 0)
+__CPROVER_ensures((g_T_destroyed - g_d0) - (g_T_constructed - g_c0) == g_size0 && (!g_inl0 ==> g_freed[g_oldheap]))
+__CPROVER_assigns(self->size_, self->heap_ptr, self->heap_capacity, other->size_, g_T_constructed, g_T_destroyed, g_frees, TABLES)
+#include "SV_move_assign.body.inc"
+
 #ifdef VERIF_CBMC
 #ifdef SIZE_BOUND
 #define BND(c) __CPROVER_assume((c) <= SIZE_BOUND + 1)
 #else
 #define BND(c)
+void h_SV_copy_ctor(void) { SV o; mk(&o, 1); g_osize0 = RAW(&o); g_olive0 = g_live[DATA(&o)]; SV v; v.inl = 0; mk_inl(0); v.heap_ptr = 0; v.heap_capacity = 0; v.size_ = nondet_size_t(); SV_copy_ctor(&v, &o); }
+void h_SV_copy_assign(void) { SV o; SV v; for (int j = 0; j < NBLK; ++j) { g_used[j] = 0; g_freed[j] = 0; g_vacated[j] = 0; g_live[j] = 0; g_cap[j] = 0; g_align[j] = 0; }
+  mk_state(&o, 1); mk_state(&v, 0); g_osize0 = RAW(&o); g_olive0 = g_live[DATA(&o)];
+  g_T_constructed = nondet_int(); g_T_destroyed = nondet_int(); __CPROVER_assume(g_T_constructed < (1u << 30) && g_T_destroyed < (1u << 30)); g_allocs = 0; g_frees = 0;
+  g_size0 = RAW(&v); g_inl0 = ISINL(&v); g_oldheap = v.heap_ptr; g_c0 = g_T_constructed; g_d0 = g_T_destroyed; SV_copy_assign(&v, &o); }
+void h_SV_move_assign(void) { SV o; SV v; for (int j = 0; j < NBLK; ++j) { g_used[j] = 0; g_freed[j] = 0; g_vacated[j] = 0; g_live[j] = 0; g_cap[j] = 0; g_align[j] = 0; }
+  mk_state(&o, 1); mk_state(&v, 0); g_osize0 = RAW(&o);
+  g_T_constructed = nondet_int(); g_T_destroyed = nondet_int(); __CPROVER_assume(g_T_constructed < (1u << 30) && g_T_destroyed < (1u << 30)); g_allocs = 0; g_frees = 0;
+  g_size0 = RAW(&v); g_inl0 = ISINL(&v); g_oldheap = v.heap_ptr; g_c0 = g_T_constructed; g_d0 = g_T_destroyed; SV_move_assign(&v, &o); }
 #endif
 static void mk_inl(BlkH h) { g_cap[h] = KN; g_align[h] = ALIGNOF_T; g_freed[h] = 0; g_live[h] = 0; g_used[h] = 1; g_vacated[h] = 0; }
+static void mk_state(SV* v, BlkH inl);
 static void mk(SV* v, BlkH inl) {
   for (int j = 0; j < NBLK; ++j) { g_used[j] = 0; g_freed[j] = 0; g_vacated[j] = 0; g_live[j] = 0; g_cap[j] = 0; g_align[j] = 0; }
+  mk_state(v, inl);
+  g_T_constructed = nondet_int(); g_T_destroyed = nondet_int(); __CPROVER_assume(g_T_constructed < (1u << 30) && g_T_destroyed < (1u << 30)); g_allocs = 0; g_frees = 0;
+  g_size0 = RAW(v); g_cap0 = CAPOF(v); g_inl0 = ISINL(v); g_c0 = g_T_constructed; g_d0 = g_T_destroyed; g_a0 = g_allocs; g_f0 = g_frees;
+}
+static void mk_state(SV* v, BlkH inl) {
   v->inl = inl; mk_inl(inl);
   size_t n = nondet_size_t(); __CPROVER_assume(n < CAP_MAX / 2);
   BND(n);
@@ -210,8 +255,6 @@ static void mk(SV* v, BlkH inl) {
     BlkH b = (ALIGNOF_T > MAX_ALIGN_T) ? SV_new_aligned(c, ALIGNOF_T) : SV_new(c); g_live[b] = n;   /* a heap block as the code itself allocates it */
     v->size_ = kHeapBit | n; v->heap_ptr = b; v->heap_capacity = c;
   }
-  g_T_constructed = nondet_int(); g_T_destroyed = nondet_int(); __CPROVER_assume(g_T_constructed < (1u << 30) && g_T_destroyed < (1u << 30)); g_allocs = 0; g_frees = 0;
-  g_size0 = RAW(v); g_cap0 = CAPOF(v); g_inl0 = ISINL(v); g_c0 = g_T_constructed; g_d0 = g_T_destroyed; g_a0 = g_allocs; g_f0 = g_frees;
 }
 void h_SV_isInline(void) { SV v; SV_isInline(&v); }
 void h_SV_rawSize(void) { SV v; SV_rawSize(&v); }
@@ -230,4 +273,13 @@ void h_SV_clear(void) { SV v; mk(&v, 0); SV_clear(&v); }
 void h_SV_reserve(void) { SV v; mk(&v, 0); size_t c; BND(c); SV_reserve(&v, c); }
 void h_SV_dtor(void) { SV v; mk(&v, 0); SV_dtor(&v); }
 void h_SV_move_ctor(void) { SV o; mk(&o, 1); g_osize0 = RAW(&o); SV v; v.inl = 0; mk_inl(0); v.heap_ptr = 0; v.heap_capacity = 0; v.size_ = nondet_size_t(); SV_move_ctor(&v, &o); }
+void h_SV_copy_ctor(void) { SV o; mk(&o, 1); g_osize0 = RAW(&o); g_olive0 = g_live[DATA(&o)]; SV v; v.inl = 0; mk_inl(0); v.heap_ptr = 0; v.heap_capacity = 0; v.size_ = nondet_size_t(); SV_copy_ctor(&v, &o); }
+void h_SV_copy_assign(void) { SV o; SV v; for (int j = 0; j < NBLK; ++j) { g_used[j] = 0; g_freed[j] = 0; g_vacated[j] = 0; g_live[j] = 0; g_cap[j] = 0; g_align[j] = 0; }
+  mk_state(&o, 1); mk_state(&v, 0); g_osize0 = RAW(&o); g_olive0 = g_live[DATA(&o)];
+  g_T_constructed = nondet_int(); g_T_destroyed = nondet_int(); __CPROVER_assume(g_T_constructed < (1u << 30) && g_T_destroyed < (1u << 30)); g_allocs = 0; g_frees = 0;
+  g_size0 = RAW(&v); g_inl0 = ISINL(&v); g_oldheap = v.heap_ptr; g_c0 = g_T_constructed; g_d0 = g_T_destroyed; SV_copy_assign(&v, &o); }
+void h_SV_move_assign(void) { SV o; SV v; for (int j = 0; j < NBLK; ++j) { g_used[j] = 0; g_freed[j] = 0; g_vacated[j] = 0; g_live[j] = 0; g_cap[j] = 0; g_align[j] = 0; }
+  mk_state(&o, 1); mk_state(&v, 0); g_osize0 = RAW(&o);
+  g_T_constructed = nondet_int(); g_T_destroyed = nondet_int(); __CPROVER_assume(g_T_constructed < (1u << 30) && g_T_destroyed < (1u << 30)); g_allocs = 0; g_frees = 0;
+  g_size0 = RAW(&v); g_inl0 = ISINL(&v); g_oldheap = v.heap_ptr; g_c0 = g_T_constructed; g_d0 = g_T_destroyed; SV_move_assign(&v, &o); }
 #endif
